@@ -21,7 +21,7 @@ impl ProgProperty for C08 {
         "fault_enumeration"
     }
     fn rule(&self) -> String {
-        "structured / raw programs x input x width; fault plans drawn from the canonical event list so the fault is always reached: the k-th output write returns Ok(0), or returns Err, or the j-th input request returns Err, or the input source is absent; plus a control group without fault (end of input reads 0 and continues; absent output sink discards bytes). Every plan runs on all four back ends (one level each, drawn) through execute and through execute_limited with budget 2^62. For programs with few canonical events (<= 6 quick, <= 24 thorough) every fault position is enumerated instead of one drawn. Oracle: the attempts log equals the canonical events up to and including the failing attempt, nothing after it; the call returns Ok; no panic, no signal. Non-trivial: the fault position lies after at least 3 events or inside a loop body that the canonical run repeats; distinct = distinct (program, input, width, fault plan)".into()
+        "structured / raw programs x input x width; fault plans drawn from the canonical event list so the fault is always reached: the k-th output write returns Ok(0), or returns Err, or the j-th input request returns Err (the io::ErrorKind varies with the position: Interrupted, Other, BrokenPipe, WouldBlock, PermissionDenied, UnexpectedEof, TimedOut, WriteZero), or the input source is absent; plus a control group without fault (end of input reads 0 and continues; absent output sink discards bytes). Every plan runs on all four back ends (one level each, drawn) through execute and through execute_limited with budget 2^62. For programs with few canonical events (<= 6 quick, <= 24 thorough) every fault position is enumerated instead of one drawn. Oracle: the attempts log equals the canonical events up to and including the failing attempt, nothing after it; the call returns Ok; no panic, no signal. Non-trivial: the fault position lies after at least 3 events or inside a loop body that the canonical run repeats; distinct = distinct (program, input, width, fault plan)".into()
     }
     fn assumptions(&self) -> Vec<String> {
         vec!["the LLVM back end named in the property's anchors cannot be built here (LLVM 17 / inkwell not installed) and is not exercised".into()]
